@@ -503,3 +503,114 @@ func execC08Conc(t *testing.T, c C08Conc) (v Verdict) {
 }
 
 func TestC08Conc(t *testing.T) { checkProp(t, "C08", "concurrent", genC08Conc, execC08Conc) }
+
+// ---- floods of calls that share a few timeout values -----------------------------------------
+//
+// The server's unary workers (and the read loops of several connections) read deadlines concurrently. Each handler must
+// get its own caller's deadline when many calls with few distinct timeout values arrive back to back, round after round.
+
+type C08Flood struct {
+	Rounds  [][]int64 `json:"rounds"` // per round, per call: timeout in ms (0 = none)
+	Clients int       `json:"clients"`
+	Ser     bool      `json:"ser"`
+}
+
+func genC08Flood(t *rapid.T) C08Flood {
+	c := C08Flood{Clients: rapid.IntRange(1, 3).Draw(t, "clients"), Ser: rapid.Bool().Draw(t, "ser")}
+	vals := []int64{0, 5000, 5001, 60000, 3600000, 86400000}
+	nr := rapid.IntRange(2, 5).Draw(t, "rounds")
+	for r := 0; r < nr; r++ {
+		a := rapid.SampledFrom(vals).Draw(t, "a")
+		b := rapid.SampledFrom(vals).Draw(t, "b")
+		n := rapid.SampledFrom([]int{2, 8, 16, 32}).Draw(t, "n")
+		var round []int64
+		for i := 0; i < n; i++ {
+			if rapid.IntRange(0, 3).Draw(t, "which") == 0 {
+				round = append(round, b)
+			} else {
+				round = append(round, a)
+			}
+		}
+		c.Rounds = append(c.Rounds, round)
+	}
+	return c
+}
+
+func execC08Flood(t *testing.T, c C08Flood) (v Verdict) {
+	type hobs struct {
+		has bool
+		dl  time.Time
+		ran bool
+	}
+	type call struct {
+		to       int64
+		callerDL time.Time
+		h        hobs
+	}
+	var calls []*call
+	var mu sync.Mutex
+	res := kit.Bubble(t, func() {
+		svc := kit.NewSvc()
+		svc.Unary("u", func(ctx context.Context, req []byte) ([]byte, error) {
+			idx := int(req[0])<<8 | int(req[1])
+			mu.Lock()
+			calls[idx].h.dl, calls[idx].h.has = ctx.Deadline()
+			calls[idx].h.ran = true
+			mu.Unlock()
+			return req, nil
+		})
+		w := kit.NewWorld(kit.Topo{Kind: "direct", Serialize: c.Ser, Clients: c.Clients}, svc, nil, nil)
+		for _, round := range c.Rounds {
+			start := make(chan struct{})
+			var wg sync.WaitGroup
+			for i, to := range round {
+				mu.Lock()
+				idx := len(calls)
+				cl := &call{to: to}
+				calls = append(calls, cl)
+				mu.Unlock()
+				wg.Add(1)
+				go func() {
+					defer wg.Done()
+					<-start
+					ctx := context.Background()
+					if to > 0 {
+						var cancel context.CancelFunc
+						ctx, cancel = context.WithTimeout(ctx, time.Duration(to)*time.Millisecond)
+						defer cancel()
+						cl.callerDL, _ = ctx.Deadline()
+					}
+					_, _ = kit.Invoke(ctx, w.Conn(i%c.Clients), "u", []byte{byte(idx >> 8), byte(idx)})
+				}()
+			}
+			kit.Settle()
+			close(start)
+			wg.Wait()
+			time.Sleep(time.Millisecond)
+		}
+		w.Shutdown()
+		kit.Settle()
+	})
+	if res.Panic != nil {
+		v.failf("panic: %v", res.Panic)
+	}
+	distinct := map[int64]bool{}
+	for i, cl := range calls {
+		distinct[cl.to] = true
+		if !cl.h.ran {
+			v.failf("call %d: handler never ran", i)
+			continue
+		}
+		if cl.h.has != (cl.to > 0) {
+			v.failf("call %d (timeout %dms): caller has deadline=%v, handler has deadline=%v", i, cl.to, cl.to > 0, cl.h.has)
+			continue
+		}
+		if cl.to > 0 && (cl.h.dl.After(cl.callerDL) || cl.h.dl.Before(cl.callerDL.Add(-time.Millisecond))) {
+			v.failf("call %d (timeout %dms): handler deadline differs from its own caller's by %v (another call's deadline?)", i, cl.to, cl.h.dl.Sub(cl.callerDL))
+		}
+	}
+	v.Info = kit.CaseInfo{Labels: []string{"e2e.flood", fmt.Sprintf("flood.clients=%d", c.Clients)}, NonTrivial: len(distinct) >= 2, Key: fmt.Sprintf("%+v", c), Sample: map[string]any{"rounds": len(c.Rounds), "calls": len(calls), "clients": c.Clients, "distinct_timeouts": len(distinct)}}
+	return
+}
+
+func TestC08Flood(t *testing.T) { checkProp(t, "C08", "flood", genC08Flood, execC08Flood) }
